@@ -557,6 +557,7 @@ fn huge_strategy(_t: Tier) -> BoxedStrategy<HugeTs> {
 
 pub fn def() -> PropertyDef {
     PropertyDef {
+        fuzz_targets: &[],
         id: "C16",
         level: "exploration",
         rule: "boundary-directed generators, one per narrowing site, drawing values within +-3 of each limit: total media duration around 2^32 ticks \
